@@ -1550,6 +1550,7 @@ class WassersteinDistanceNewton(VariationalWassersteinDistance):
 
         # Initialize distance in case below iteration fails
         new_distance = 0
+        iteration_failed = False
 
         # Initialize container for storing the convergence history
         convergence_history = {
@@ -1688,6 +1689,7 @@ class WassersteinDistanceNewton(VariationalWassersteinDistance):
                         break
             except Exception:
                 warnings.warn("Newton iteration abruptly stopped due to some error.")
+                iteration_failed = True
                 break
 
         # Summarize profiling (time in seconds, memory in GB)
@@ -1696,7 +1698,7 @@ class WassersteinDistanceNewton(VariationalWassersteinDistance):
 
         # Define performance metric
         info = {
-            "converged": iter < num_iter - 1,
+            "converged": not iteration_failed and iter < num_iter - 1,
             "number_iterations": iter,
             "convergence_history": convergence_history,
             "timings": total_timings,
@@ -1827,6 +1829,7 @@ class WassersteinDistanceBregman(VariationalWassersteinDistance):
 
         # Initialize distance in case below iteration fails
         new_distance = 0
+        iteration_failed = False
 
         # Initialize container for storing the convergence history
         convergence_history = {
@@ -2056,6 +2059,7 @@ class WassersteinDistanceBregman(VariationalWassersteinDistance):
 
             except Exception:
                 warnings.warn("Bregman iteration abruptly stopped due to some error.")
+                iteration_failed = True
                 break
 
         # Solve for the pressure by solving a single Newton iteration
@@ -2074,7 +2078,7 @@ class WassersteinDistanceBregman(VariationalWassersteinDistance):
 
         # Define performance metric
         info = {
-            "converged": iter < num_iter - 1,
+            "converged": not iteration_failed and iter < num_iter - 1,
             "number_iterations": iter,
             "convergence_history": convergence_history,
             "timings": total_timings,
